@@ -29,6 +29,8 @@
 #include "llvm/Support/Regex.h"
 #include "llvm/Support/raw_ostream.h"
 
+#include <unistd.h>
+
 #include <map>
 #include <set>
 #include <string>
@@ -1967,7 +1969,7 @@ int main(int argc, char const** argv)
     ClangTool tool(op.getCompilations(), op.getSourcePathList());
     int rc = tool.run(newFrontendActionFactory<Action>().get());
     std::string out = OutFile;
-    std::string tmp = out + ".tmp";
+    std::string tmp = out + ".tmp" + std::to_string(::getpid());
     std::error_code ec;
     {
         llvm::raw_fd_ostream os(tmp, ec);
